@@ -112,7 +112,7 @@ func runC20(tier string, _ []string) int {
 	c := vlib.NewCtx("C20", tier, "exploration")
 	vlib.SetPortBlock(20)
 	raceBuild := strings.Contains(os.Getenv("GORACE"), "log_path")
-	c.SetRule("per history (race-detector build): a fresh instance, 8-32 bus clients on their own connections issue ~150-400 operations against 3 nodes (a chain three deep in every other history, so that one write moves three ancestor hashes) x 2 types x 2 keys: acknowledged node-point and edge-point writes with unique (timestamp, value), node reads - directly and as entries of the parent's child listing - (split into one read per identity), reads with an undecodable payload, admin.storeVerify (every fourth history carries 120 ballast nodes and two connections that only ask for verification (admin.storeVerify), so that Stop meets verifications in flight; at rest after the load a burst of 260 pipelined 40 KiB requests on one connection must be answered one by one, and admin.storeVerify and admin.storeMaint are asked for at the same time); a fifth of the clients write through the library's SendNodePoints (1 s deadline), another fifth read and write through the HTTP API (so api handlers run concurrently with bus handlers); ~3% of the operations create a new leaf node below one of the nodes while its ancestors' hashes are moving, ~1% give one of the nodes being written a second placement (mirror); random 0-2 ms delays are injected at the store.afterNodeWrite / store.afterEdgeWrite hook sites (between database commit and rebroadcast/reply). One more instance is kept for 66 s (so that its once-a-minute jobs have run) and must then acknowledge writes, serve reads and hold consistent hashes as before. Every call is recorded at the client boundary (call time before sending, return time after the reply, one monotonic clock); an unanswered operation stays open to the end of the history. Monitors: (1) porcupine linearizability of each identity's history against a max-timestamp register, (2) every request answered, (3) final content = newest accepted write per identity (C01) with consistent hashes (C03), (4) race detector reports involving simpleiot code, (5) Server.Stop during or after load: Run returns and the same file opens again with the acknowledged writes. distinct = (clients, stop mode, fingerprint class: overlapping pairs bucket, concurrent read/write pairs bucket)")
+	c.SetRule("per history (race-detector build): a fresh instance, 8-32 bus clients on their own connections issue ~150-400 operations against 3 nodes (a chain three deep in every other history, so that one write moves three ancestor hashes) x 2 types x 2 keys: acknowledged node-point and edge-point writes with unique (timestamp, value), node reads - directly and as entries of the parent's child listing - (split into one read per identity), reads with an undecodable payload, edge writes that must be refused (deleting an edge the node never had), admin.storeVerify (every fourth history carries 120 ballast nodes and two connections that only ask for verification (admin.storeVerify), so that Stop meets verifications in flight; at rest after the load a burst of 260 pipelined 40 KiB requests on one connection must be answered one by one, and admin.storeVerify and admin.storeMaint are asked for at the same time); a fifth of the clients write through the library's SendNodePoints (1 s deadline), another fifth read and write through the HTTP API (so api handlers run concurrently with bus handlers); ~3% of the operations create a new leaf node below one of the nodes while its ancestors' hashes are moving, ~1% give one of the nodes being written a second placement (mirror); random 0-2 ms delays are injected at the store.afterNodeWrite / store.afterEdgeWrite hook sites (between database commit and rebroadcast/reply). One more instance is kept for 66 s (so that its once-a-minute jobs have run) and must then acknowledge writes, serve reads and hold consistent hashes as before. Every call is recorded at the client boundary (call time before sending, return time after the reply, one monotonic clock); an unanswered operation stays open to the end of the history. Monitors: (1) porcupine linearizability of each identity's history against a max-timestamp register, (2) every request answered, (3) final content = newest accepted write per identity (C01) with consistent hashes (C03), (4) race detector reports involving simpleiot code, (5) Server.Stop during or after load: Run returns and the same file opens again with the acknowledged writes. distinct = (clients, stop mode, fingerprint class: overlapping pairs bucket, concurrent read/write pairs bucket)")
 	c.Assume("schedules are sampled, not enumerated; a clean race-detector run means no report on the executed paths")
 	if !raceBuild {
 		c.Assume("this run was NOT built with -race")
@@ -305,6 +305,16 @@ func runC20(tier string, _ []string) int {
 						cr.Read(junk)
 						if m, err := nc.Request("nodes."+parentOf[node]+"."+node, junk, vlib.ReqTimeout); err == nil && len(m.Data) > 0 {
 							c.Count("reads_with_undecodable_payload_answered", 1)
+						}
+					case roll == 93:
+						// a request that has to be refused (an edge the node never had is deleted: there is no such
+						// edge and the request names no node type); it is answered with an error, and nobody else's
+						// writes are the worse for it
+						e, err := vlib.SendAck(nc, vlib.EdgeSubj(node, fmt.Sprintf("nowhere-%d-%d", cl, k)), data.Points{{Type: data.PointTypeTombstone, Time: time.Unix(0, 1700000000e9+int64(k)), Value: 1, Origin: fmt.Sprint("c", cl)}})
+						if err == nil && e == "" {
+							record(&c20Op{Part: "refusal", Client: cl, Kind: "verify-error:an edge write without node type for an edge that does not exist was acknowledged", Call: mono()})
+						} else if err == nil {
+							c.Count("refusals_under_load", 1)
 						}
 					case roll < 45 || (roll < 60): // node write / edge write
 						edge := roll >= 45
